@@ -34,6 +34,13 @@ and parenthesised elsewhere. Both gaps of an operator hold at least one whitespa
 `a//b`, `<a>`, `a->b`, `/*` … are other tokens): mostly one blank, a line break with indentation in front of
 the operator (15%) and / or behind it (15%), and with probability `p_bin_cmt` per operator comments in one
 of the two gaps (the model does not cover those).
+With probability `p_if` an expression position of depth > 0 holds `if C then A else B`: like `with` / a lambda it
+reaches as far right as it can (bare at top level, as a binding value, inside parentheses, as a body; parenthesised
+elsewhere); C and A are expressions in head position (followed by a keyword), B one in body position. The five
+inner gaps hold whitespace (mostly one blank, now and then a line break with indentation or a blank line) — with
+probability `p_if_cmt` per node they may hold comments too (outside the theorems' fragment, inside the model).
+With probability `p_has` an expression position of depth > 0 (or an operand of a binary operator) holds
+`E g1 ? g2 a.b`: E an application-level expression, the attrpath as for a select; bare where a bare application is.
 Never starts with whitespace.
 Small by construction (py-tree-sitter 0.26 crashes beyond ~250 lines)."""
 from __future__ import annotations
@@ -66,7 +73,8 @@ PATH_QUIRK = re.compile(r"(?:nix|~/h)(?:\s|#[^\n]*\n|/\*.*?\*/)*?/\*.*?\*//\*")
 class FragGen:
     def __init__(self, rng: random.Random, p_cmt: float, p_inner: float, p_kw: float = 0.25, p_kw_cmt: float = 0.4,
                  p_sel: float = 0.22, p_sel_cmt: float = 0.15, p_lam: float = 0.13, p_lam_cmt: float = 0.1,
-                 p_lam_body_cmt: float = 0.0, p_bin: float = 0.17, p_bin_cmt: float = 0.08):
+                 p_lam_body_cmt: float = 0.0, p_bin: float = 0.17, p_bin_cmt: float = 0.08,
+                 p_if: float = 0.1, p_if_cmt: float = 0.2, p_has: float = 0.06, p_has_cmt: float = 0.15):
         """`p_kw`: probability that a `with` / `assert` node may have comments in its three inner gaps;
         `p_kw_cmt`: comment density (as for `gap`) in the inner gaps of such a node;
         `p_sel`: probability that a leaf position (or the function of an application) holds a select;
@@ -83,6 +91,8 @@ class FragGen:
         self.p_sel, self.p_sel_cmt, self.sels = p_sel, p_sel_cmt, 0
         self.p_lam, self.p_lam_cmt, self.p_lam_body_cmt, self.lams = p_lam, p_lam_cmt, p_lam_body_cmt, 0
         self.p_bin, self.p_bin_cmt, self.bins = p_bin, p_bin_cmt, 0
+        self.p_if, self.p_if_cmt, self.ifs = p_if, p_if_cmt, 0
+        self.p_has, self.p_has_cmt, self.hass = p_has, p_has_cmt, 0
 
     def comment(self):
         self.n += 1
@@ -183,6 +193,58 @@ class FragGen:
                 g = " "   # `x:y`, `x:1`, `x:./p.nix`, `x:rec{}` … would be one uri token
         return s + g + b
 
+    def _kw_then(self, s: str, prev: str, word: str, p: float) -> str:
+        """`s` GAP `word`: the gap between an expression and the keyword `then` / `else`"""
+        g = self.gap(p) if p > 0 else self.rng.choice([" "] * 10 + ["  ", "\n", "\n  ", "\n  ", "\n\n  ", ""])
+        if g == "" and prev[-1] not in ")]}":
+            g = " "   # `athen`, `1else` … would be other tokens
+        if g.endswith("*/") and prev.endswith(("nix", "h", ">")):
+            g += " "   # tree-sitter-nix quirk: `./p.nix /*c*/then` (block comment touching the keyword in the trivia
+            #            run after a path) is a syntax error
+        return s + self._after(s, prev, g) + word
+
+    def _kw_head(self, s: str, nxt: str, p: float) -> str:
+        """`s` (ends in a keyword) GAP `nxt`"""
+        g = self.gap(p) if p > 0 else self.rng.choice([" "] * 10 + ["  ", "\n", "\n  ", "\n    ", "\n\n  ", ""])
+        if not g.endswith(WS) and not (g == "" and nxt[0] in "[{(") and not (g.endswith("*/") and nxt[0] not in "./~<"):
+            g += " "   # `ifa`, `then./p.nix`, `else/*c*/./p.nix` … would be other tokens
+        return s + g + nxt
+
+    def ite(self, depth: int) -> str:
+        """`if` g1 C g2 `then` g3 A g4 `else` g5 B"""
+        self.ifs += 1
+        p = self.p_kw_cmt if self.rng.random() < self.p_if_cmt else 0.0
+        c = self.expr(depth - 1, "head")
+        a = self.expr(depth - 1, "head")
+        b = self.expr(depth - 1, "body")
+        s = self._kw_head("if", c, p)
+        s = self._kw_then(s, c, "then", p)
+        s = self._kw_head(s, a, p)
+        s = self._kw_then(s, a, "else", p)
+        return self._kw_head(s, b, p)
+
+    def has_attr(self, depth: int) -> str:
+        """E g1 `?` g2 a₁.a₂.….aₙ; E an application-level expression"""
+        self.hass += 1
+        r = self.rng.random()
+        if depth <= 0 or r < 0.55:
+            e = self.leaf(depth)
+        elif r < 0.7:
+            e = self.paren(depth)
+        elif r < 0.85:
+            e = self.app(depth)
+        elif r < 0.93:
+            e = self.attrset(depth)
+        else:
+            e = self.lst(depth)
+        cmt = self.rng.random() < self.p_has_cmt
+        g1 = self._cmt_run(SEPS) if cmt and self.rng.random() < 0.5 else self.rng.choice([" "] * 8 + ["  ", "\n  ", "\n", ""])
+        if g1 == "" and e[-1] not in ")]}":
+            g1 = " "
+        g2 = self._cmt_run(GAPS) if cmt and self.rng.random() < 0.5 else self.rng.choice([" "] * 8 + ["", "", "  ", "\n  ", "\n\n    "])
+        ap = ".".join(self.rng.choice(SEL_SEGS) for _ in range(self.rng.choice([1, 1, 1, 2, 2, 3])))
+        return e + self._after(e, e, g1) + "?" + g2 + ap
+
     def unary(self, depth: int) -> str:
         """`!` / `-` GAP OPERAND; the operand an application-level expression"""
         op = self.rng.choice(["!", "!", "-"])
@@ -214,8 +276,10 @@ class FragGen:
             return self.app(depth)
         if r < 0.86:
             return self.lst(depth)
-        if r < 0.94:
+        if r < 0.92:
             return self.attrset(depth)
+        if r < 0.95:
+            return self.has_attr(depth - 1)   # `?` binds tighter than every binary operator
         # `a + -b`, `a && !b` … : precedence surprises; bare only in front
         return self.unary(depth - 1) if first else "(" + self.unary(depth - 1) + ")"
 
@@ -301,6 +365,11 @@ class FragGen:
             # a lambda reaches as far right as it can, like `with` / `assert`: bare only where nothing may
             # follow it but a closing token
             return self.lam(depth) if ctx in ("top", "value", "paren", "body") else "(" + self.lam(depth) + ")"
+        if depth > 0 and self.rng.random() < self.p_if:
+            # `if` reaches as far right as it can
+            return self.ite(depth) if ctx in ("top", "value", "paren", "body") else "(" + self.ite(depth) + ")"
+        if depth > 0 and self.rng.random() < self.p_has:
+            return self.has_attr(depth - 1) if ctx in ("top", "value", "paren", "head", "body") else "(" + self.has_attr(depth - 1) + ")"
         if depth > 0 and self.rng.random() < 0.07:
             # a unary operator binds looser than application and select
             return self.unary(depth - 1) if ctx in ("top", "value", "paren", "head", "body") else "(" + self.unary(depth - 1) + ")"
